@@ -40,6 +40,9 @@ func (m *Mutex) Held() bool { return m.locked }
 
 func (m *Mutex) Lock() {
 	if !vsched.Active() {
+		if m.reg { // used under the scheduler: this is teardown (Goexit running deferred calls)
+			return
+		}
 		m.real.Lock()
 		return
 	}
@@ -54,6 +57,9 @@ func (m *Mutex) Lock() {
 
 func (m *Mutex) TryLock() bool {
 	if !vsched.Active() {
+		if m.reg {
+			return true
+		}
 		return m.real.TryLock()
 	}
 	vsched.Yield("TryLock")
@@ -75,12 +81,16 @@ func (m *Mutex) unlockNoYield() {
 
 func (m *Mutex) Unlock() {
 	if !vsched.Active() {
-		if m.locked { // acquired under the scheduler, released during teardown
+		if m.reg { // used under the scheduler: this is teardown (Goexit running deferred calls)
 			m.locked = false
 			return
 		}
 		m.real.Unlock()
 		return
+	}
+	if !m.reg {
+		m.reg = true
+		vsched.RegisterLock(m)
 	}
 	m.unlockNoYield()
 	vsched.Yield("Unlock")
@@ -114,6 +124,9 @@ func (m *RWMutex) register() {
 
 func (m *RWMutex) Lock() {
 	if !vsched.Active() {
+		if m.reg {
+			return
+		}
 		m.real.Lock()
 		return
 	}
@@ -125,7 +138,7 @@ func (m *RWMutex) Lock() {
 
 func (m *RWMutex) Unlock() {
 	if !vsched.Active() {
-		if m.writer {
+		if m.reg {
 			m.writer = false
 			return
 		}
@@ -142,6 +155,9 @@ func (m *RWMutex) Unlock() {
 
 func (m *RWMutex) RLock() {
 	if !vsched.Active() {
+		if m.reg {
+			return
+		}
 		m.real.RLock()
 		return
 	}
@@ -153,8 +169,10 @@ func (m *RWMutex) RLock() {
 
 func (m *RWMutex) RUnlock() {
 	if !vsched.Active() {
-		if m.readers > 0 {
-			m.readers--
+		if m.reg {
+			if m.readers > 0 {
+				m.readers--
+			}
 			return
 		}
 		m.real.RUnlock()
@@ -178,6 +196,7 @@ func (r *rlocker) Unlock() { (*RWMutex)(r).RUnlock() }
 type Cond struct {
 	L       Locker
 	real    *sync.Cond
+	coop    bool
 	waiters []*waiter
 }
 
@@ -208,9 +227,13 @@ func (c *Cond) Waiters() []string {
 
 func (c *Cond) Wait() {
 	if !vsched.Active() {
+		if c.coop {
+			return
+		}
 		c.realCond().Wait()
 		return
 	}
+	c.coop = true
 	w := &waiter{name: vsched.CurrentName()}
 	c.waiters = append(c.waiters, w)
 	switch l := c.L.(type) {
